@@ -628,6 +628,96 @@ def r9(ctx, rep):
     rep.check(len(table) >= 40, "table", f"reviewed/c12_reached.json lists {len(table)} sites")
 
 
+FOLD_TRAITS = ("PlFold", "RqFold", "PqFold", "PqMapper")
+_ADAPTERS = {"map", "into_iter", "iter", "iter_mut", "try_collect", "collect", "transpose", "map_ok", "and_then", "zip", "enumerate", "cloned", "copied", "rev", "chain",
+             "flat_map", "filter", "filter_map", "flatten", "try_map", "map_values", "into_values", "values", "keys", "drain", "clone", "take", "unwrap_or_default", "unwrap_or",
+             "into", "as_ref", "as_mut", "to_vec", "collect_vec", "try_fold", "fold", "ok", "boxed", "pluck", "into_inner"}
+
+
+_RET = {}      # function / method name -> does any workspace function of that name return a Result (filled by r10)
+
+
+def _tail(body):
+    st = body.get("s") or []
+    return st[-1] if st and st[-1].get("k") not in ("local", "item_fn") and not st[-1].get("semi") else None
+
+
+def _error_sources(f):
+    """Places where the body of `f` can produce an Err of its own (not merely pass on the Err of a fold call): [(line, what)]."""
+    out = []
+    for n in walk(f["body"]):
+        k = n.get("k")
+        if k == "call" and n["f"].get("k") == "path" and last_seg(n["f"]["p"]) == "Err":
+            out.append((n["l"], "Err(..)"))
+        elif k == "macro" and n.get("n") in ("bail", "ensure"):
+            out.append((n["l"], n["n"] + "!"))
+        elif k == "mcall" and n["m"] in ("ok_or", "ok_or_else", "context", "with_context"):
+            out.append((n["l"], "." + n["m"] + "()"))
+        elif k == "try" or (k == "return" and n.get("e") is not None) or n is _tail(f["body"]):
+            # the operand of `?`, and what the function returns: every call in it is a fold call, an adapter, a constructor, or a
+            # workspace function that does not return a Result
+            for c in walk(n["e"] if k in ("try", "return") else n):
+                if c.get("k") == "mcall":
+                    nm = c["m"]
+                    if nm.startswith("fold") or nm in _ADAPTERS or (nm in _RET and not _RET[nm]):
+                        continue
+                    if k != "try" and nm not in _RET:
+                        continue        # (outside a `?`: a method of another crate; its Result, if any, would need a `?` or be the tail itself)
+                    out.append((c["l"], f"`?` on .{nm}()" if k == "try" else f"returns .{nm}()"))
+                elif c.get("k") == "call" and c["f"].get("k") == "path":
+                    nm = last_seg(c["f"]["p"])
+                    if nm.startswith("fold") or nm in ("Ok", "Some", "Box::new", "new") or nm[:1].isupper() or (nm in _RET and not _RET[nm]):
+                        continue
+                    if k != "try" and nm not in _RET:
+                        continue
+                    out.append((c["l"], f"`?` on {nm}()" if k == "try" else f"returns {nm}()"))
+    return out
+
+
+def r10(ctx, rep):
+    rep.rule("C12.R10", "a fold whose result is unwrapped is infallible: no method of the folder, of the fold traits it implements or of their helper functions produces an Err of its own", floor=10)
+    cg, syn = ctx.cg, ctx.syn
+    _RET.clear()
+    for f in syn.fns:
+        _RET[f["name"]] = _RET.get(f["name"], False) or ("Result" in (f.get("ret") or ""))
+    sites = [s_ for s_ in panics.collect(cg, syn) if s_["cls"] in ("Result::unwrap", "Result::expect") and re.match(r"^\.?fold\w*\(\)$", s_["step"] or "")]
+    # the folder type of each site: `self` of the resolved fold call on the same line (driver)
+    fold_self = {}
+    for fid, f in cg.fns.items():
+        for r in f["refs"]:
+            if r["kind"] == "call" and r.get("self") and re.search(r"(^|::)fold\w*$", r.get("def") or ""):
+                fold_self.setdefault((r["file"], r.get("ml") if r.get("ml", -1) > 0 else r["l"]), r["self"])
+                fold_self.setdefault((r["file"], r["l"]), r["self"])
+    trait_files = {}
+    for f in syn.fns:
+        if f.get("trait_short") in FOLD_TRAITS and f.get("self_short") in FOLD_TRAITS:
+            trait_files.setdefault(f["trait_short"], f["file"])
+    n_sites = 0
+    ordinal = {}
+    for s_ in sorted(sites, key=lambda x: (x["file"], x["l"])):
+        ty = fold_self.get((s_["file"], s_["l"]))
+        short = re.sub(r"<.*$", "", (ty or "").split("::")[-1] if "<" not in (ty or "") else re.sub(r"<.*$", "", ty).split("::")[-1])
+        fn_short = s_["fn"].split("::")[-1]
+        ordinal[(s_["fn"], short)] = ordinal.get((s_["fn"], short), 0) + 1
+        key = f"infallible:{s_['fn']}:{short or '?'}#{ordinal[(s_['fn'], short)]}"
+        n_sites += 1
+        if not short:
+            rep.bad(key, f"the folder type of the unwrapped fold at line {s_['l']} could not be resolved", file=s_["file"], line=s_["l"], fn=s_["fn"])
+            continue
+        impls = [i for i in syn.impls if i.get("self_short") == short and i.get("trait_short") in FOLD_TRAITS]
+        traits = sorted({i["trait_short"] for i in impls})
+        family = [f for f in syn.fns if "body" in f and ((f.get("self_short") == short and f.get("trait_short") in FOLD_TRAITS)
+                                                         or (f.get("self_short") in traits and f.get("trait_short") in traits)
+                                                         or (f.get("self_short") is None and f["name"].startswith("fold") and f["file"] in {trait_files.get(t) for t in traits}))]
+        src = []
+        for f in family:
+            for (l, what) in _error_sources(f):
+                src.append(f"{f['path'].split('::')[-1]}:{l} {what}")
+        rep.check(bool(family) and not src, key, f"{s_['fn']} unwraps the result of folding with `{short}` (line {s_['l']}), but that fold can fail: {src[:4]} - an input that reaches the error is a panic, "
+                  "not an error" if src else f"no fold implementation found for `{short}`", file=s_["file"], line=s_["l"], fn=s_["fn"], detail={"folder": short, "traits": traits, "family": len(family)})
+    rep.check(n_sites >= 10, "sites", f"expected >= 10 unwrapped folds, found {n_sites}")
+
+
 def run(ctx, rep):
-    for r in (r1, r2, r3, r4, r5, r6, r7, r8, r9):
+    for r in (r1, r2, r3, r4, r5, r6, r7, r8, r9, r10):
         rep.guard(r, ctx)
